@@ -37,9 +37,9 @@ theorem task_events_local (P : Proj) (insts : Insts) (w : Nat) (t : TaskId) (run
   exact (ownEv_iff L e).mp (hs _ he)
 
 /-- **Every exit path of a `thread` act runs `Thread.run`'s epilogue.**  Whatever the script of the `lcc.Thread`
-    does — return, raise an `Exception` / an `Abort*` (an error is logged first: `threadLogs`), be interrupted, or
-    raise a `BaseException` that is no `Exception` (`sys.exit()`, `GeneratorExit`, a project's own: NOTHING is
-    logged) — the last session call of the new thread `c` is `threadEnd` (`finally: end_step()`), the act itself
+    does — return, call `sys.exit()` (nothing is logged), raise an `Exception` / an `Abort*`, be interrupted, or
+    raise a `BaseException` that is neither an `Exception` nor `SystemExit` (`GeneratorExit`, a project's own: an
+    error is logged first in all these cases, `threadLogs`; fix D40) — the last session call of the new thread `c` is `threadEnd` (`finally: end_step()`), the act itself
     raises nothing (the test goes on), and what the thread logged is kept.  With
     `C07.no_step_left_open_after_thread_end`: the thread's step is closed in the stream. -/
 theorem thread_act_always_runs_the_epilogue (fuel role : Nat) (u : UnitId) (i : Nat) (inner : Script) (ts : TS) :
@@ -52,12 +52,17 @@ theorem thread_act_always_runs_the_epilogue (fuel role : Nat) (u : UnitId) (i : 
   simp only [exec_bind, exec_get, exec_modify]
   split <;> rfl
 
-/-- which outcomes of the thread's target `Thread.run` logs as an error: every one except a return and a
-    `BaseException` that is not an `Exception` -/
-theorem thread_logs_iff (r : Option ExcKind) : threadLogs r = true ↔ ∃ k, r = some k ∧ k ≠ .baseExc := by
+/-- which outcomes of the thread's target `Thread.run` logs as an error: every one except a return and
+    `SystemExit` (`sys.exit()` in the thread) — in particular a project's own `BaseException` IS logged (fix D40) -/
+theorem thread_logs_iff (r : Option ExcKind) : threadLogs r = true ↔ ∃ k, r = some k ∧ k ≠ .sysExit := by
   cases r with
   | none => simp [threadLogs]
   | some k => cases k <;> simp [threadLogs, ExcKind.caughtByThread]
+
+/-- `sys.exit()` ends the thread silently; a project's own `BaseException` (or `GeneratorExit`) is an uncaught exception
+    of the test: logged as an error, i.e. the location the thread was started in is failed (C02; fix D40) -/
+example : threadLogs (some .sysExit) = false ∧ threadLogs (some .baseExc) = true ∧ threadLogs (some .exc) = true ∧
+    threadLogs (some .abortAll) = true ∧ threadLogs none = false := by decide
 
 /-- the suite begin / end tasks have no location; their single event is located by `C01Run.suite_begin_items`
     and `C01Run.suite_end_items` -/
